@@ -166,7 +166,7 @@ func cosmosCrashCase(prop string, c *Ctx, idx int) CaseResult {
 				vs[j].Msg = fmt.Sprintf("[cosmosdb, cut after client write %d of %d: %s] ", k, W, lastWrites(run.Writes)) + vs[j].Msg
 			}
 			if len(vs) > 0 && first == nil {
-				first = map[string]any{"cut_after_write": k, "writes_that_went_through": run.Writes, "durable_state": describeSk(sk), "final": rec.Finals[i], "recovery_events": rec.Events}
+				first = map[string]any{"goroutines_at_hang": rec.Dump, "cut_after_write": k, "writes_that_went_through": run.Writes, "durable_state": describeSk(sk), "final": rec.Finals[i], "recovery_events": rec.Events}
 			}
 			res.Viols = append(res.Viols, vs...)
 		}
